@@ -80,32 +80,34 @@ impl Fq2 {
         let bb = b.squared();
         let aa = a.squared();
         let u = aa + bb.double();
-        let mut y = Fq::zero();
         u.sqrt().and_then(|w| {
-            let v = (a + w).div2();
-            let m = v.sqrt().map(|t| {
-                y = t;
-            });
-            if m.is_none() {
-                let v = (a - w).div2();
-                y = v.sqrt()?;
+            // x = (y + z u)^2 with y^2 = (a + w)/2 or (a - w)/2 and z = b / (2y); which of the two
+            // works depends on the root w returned for the norm, so both are tried
+            for v in [(a + w).div2(), (a - w).div2()] {
+                let y = match v.sqrt() {
+                    Some(t) => t,
+                    None => continue,
+                };
+                let z = if y.is_zero() {
+                    // then b = 0 and x = z^2 u^2 = -2 z^2
+                    match (-a).div2().sqrt() {
+                        Some(t) => t,
+                        None => continue,
+                    }
+                } else {
+                    match y.double().inverse() {
+                        Some(t) => b * t,
+                        None => continue,
+                    }
+                };
+                let sqrt_cand = Self::new(y, z);
+                // Check if sqrt_cand is actually the square root
+                if sqrt_cand.squared() == *self {
+                    return Some(sqrt_cand);
+                }
             }
-            let y2 = y.double();
-            let z1 = if y.is_zero() {
-                // i^2 = -2
-                w.div2().sqrt()?
-            } else {
-                b * y2.inverse()?
-            };
-            let z0 = y;
-            let sqrt_cand = Self::new(z0, z1);
-            // Check if sqrt_cand is actually the square root
-            // if not, there exists no square root.
-            if sqrt_cand.squared() == *self {
-                Some(sqrt_cand)
-            } else {
-                None
-            }
+            // if neither candidate works, there exists no square root.
+            None
         })
     }
     /// Converts an element of `Fq2` into a U512
